@@ -153,8 +153,28 @@ def _recursive_set(fns):
     return out, g
 
 
+_PRIMS = None
+
+
+def _primitives():
+    """functions of the utils / disclosure modules on the reference tree (sa/anchors_primitives.json): the semantic primitives rules name by role
+    (hash, encoders, salt generators, the disclosure constructor and its text helpers). A function added to those modules later is an ordinary helper."""
+    global _PRIMS
+    if _PRIMS is None:
+        import json
+        import os
+        try:
+            with open(os.path.join(os.path.dirname(os.path.abspath(__file__)), "anchors_primitives.json")) as fh:
+                _PRIMS = set(json.load(fh))
+        except OSError:
+            _PRIMS = set()
+    return _PRIMS
+
+
 def inlinable(name, f, recursive):
-    if name.startswith(KEEP_PREFIXES) or name in KEEP_NAMES or name.endswith(KEEP_SUFFIXES):
+    if name in KEEP_NAMES or name.endswith(KEEP_SUFFIXES):
+        return False
+    if name.startswith(KEEP_PREFIXES) and (name in _primitives() or not _primitives()):
         return False
     if f.get("reachable_pub"):
         return False  # public API entry points are anchors themselves
@@ -317,7 +337,7 @@ def _mentions(st, local):
     return False
 
 
-def _thread_result(f, call, region, retloc, hname):
+def _thread_result(f, call, region, retloc, hname, max_tail=None, goto_only=False):
     """Jump threading for `helper()?` / `match helper() {..}`: the caller re-dispatches on the discriminant of the helper's result right
     after the call. Clone the helper's tail (from each return-value assignment of known variant to the caller's dispatch) once per
     variant and send the clone straight to the matching arm, so that paths through the helper's Err exits cannot reach the caller's
@@ -452,7 +472,9 @@ def _thread_result(f, call, region, retloc, hname):
             continue
         if any(x in tail for (x, _, _) in sites):
             continue  # an exit site inside another's tail: do not thread
-        if len(tail) > MAX_TAIL:
+        if len(tail) > (max_tail or MAX_TAIL):
+            continue
+        if goto_only and any(blocks[x]["term"]["k"] not in ("goto", "switch") or (blocks[x]["term"]["k"] == "switch" and x != sw_id) for x in tail):
             continue
         arm = arm_for(variant == "ok")
         if pay is not None and variant == "ok":
@@ -1325,5 +1347,29 @@ class Views:
                 if len(f["blocks"]) + len(h["blocks"]) > MAX_VIEW_BLOCKS:
                     continue
                 _splice(f, bid, h, cn)
+            # `matches!(x, P if g)` / `let ok = if c { true } else { false }`: a bool temporary assigned constants in the arms and tested right
+            # after the merge. Thread every constant assignment to the arm it selects (classic jump threading of a constant merge).
+            try:
+                cand = []
+                for b in f["blocks"]:
+                    tt = b["term"]
+                    if b["cleanup"] or tt["k"] != "switch" or b.get("threaded"):
+                        continue
+                    dp = tt["discr"].get("move") or tt["discr"].get("copy")
+                    if dp and not dp["proj"] and (f["locals"][dp["local"]]["ty"] == "bool") and not any(st.get("place", {}).get("local") == dp["local"] for st in b["stmts"]):
+                        cand.append((b["id"], dp["local"]))
+                for (sb, loc) in cand[:40]:
+                    nconst = 0
+                    for b in f["blocks"]:
+                        for st in b["stmts"]:
+                            if st["k"] == "assign" and not st["place"]["proj"] and st["place"]["local"] == loc:
+                                cv = ((st["rv"].get("use") or {}).get("const") or {}).get("value") if isinstance(st.get("rv"), dict) and isinstance(st["rv"].get("use"), dict) else None
+                                if isinstance(cv, dict) and "bool" in cv:
+                                    nconst += 1
+                    if nconst:
+                        # only the immediate merge of a `match`/`if` that yields the bool (drop flags travel far and are left alone)
+                        _thread_result(f, {"target": sb}, [x["id"] for x in f["blocks"] if not x["cleanup"]], loc, "bool-merge", max_tail=3, goto_only=True)
+            except Exception:
+                pass
         self.cache[name] = f
         return f
